@@ -58,7 +58,23 @@ SIG = {
     'schnorr_point_mul': ('schnorr.py', 'point_mul', [('P', 'Point'), ('n', 'Int')], 'Point'),
     'schnorr_lift_x': ('schnorr.py', 'lift_x', [('x', 'Int')], 'Point'),
     'schnorr_has_even_y': ('schnorr.py', 'has_even_y', [('P', 'Point')], 'Bool'),
+    # BIP340 signing / verification of the bundled reference code; SHA-256 (hashlib) is a parameter
+    'schnorr_tagged_hash': ('schnorr.py', 'tagged_hash', [('sha256', 'Bytes → Bytes'), ('tag', 'Bytes'), ('msg', 'Bytes')], 'Bytes'),
+    'schnorr_bytes_from_int': ('schnorr.py', 'bytes_from_int', [('x', 'Int')], 'Bytes'),
+    'schnorr_bytes_from_point': ('schnorr.py', 'bytes_from_point', [('P', 'Point')], 'Bytes'),
+    'schnorr_xor_bytes': ('schnorr.py', 'xor_bytes', [('b0', 'Bytes'), ('b1', 'Bytes')], 'Bytes'),
+    'schnorr_int_from_bytes': ('schnorr.py', 'int_from_bytes', [('b', 'Bytes')], 'Int'),
+    'schnorr_verify': ('schnorr.py', 'schnorr_verify',
+                       [('sha256', 'Bytes → Bytes'), ('msg', 'Bytes'), ('pubkey', 'Bytes'), ('sig', 'Bytes')], 'Bool'),
+    'schnorr_sign': ('schnorr.py', 'schnorr_sign',
+                     [('sha256', 'Bytes → Bytes'), ('msg', 'Bytes'), ('seckey', 'Bytes'), ('aux_rand', 'Bytes')], 'Bytes'),
 }
+# callees of schnorr.py that take the SHA-256 parameter first / return bytes / return bool
+SCH_CALLS = {'tagged_hash': ('schnorr_tagged_hash', True), 'bytes_from_int': ('schnorr_bytes_from_int', False),
+             'bytes_from_point': ('schnorr_bytes_from_point', False), 'xor_bytes': ('schnorr_xor_bytes', False),
+             'int_from_bytes': ('schnorr_int_from_bytes', False), 'schnorr_verify': ('schnorr_verify', True),
+             'has_even_y': ('schnorr_has_even_y', False)}
+SCH_BYTES = {'tagged_hash', 'bytes_from_int', 'bytes_from_point', 'xor_bytes'}
 POINT = 'Option (Int × Int)'
 # module-level names visible to the functions of one file only (filled from the evaluated module)
 FILE_CONSTS = {}
@@ -110,6 +126,7 @@ class Tr:
             if isinstance(n.value, int): return f'({n.value} : Int)'
             if isinstance(n.value, bytes): return blit(n.value)
             if n.value is None: return 'none'
+            if isinstance(n.value, str) and 'p' in s.fconsts: return blit(n.value.encode())     # a str that only flows into .encode()
             s.fail(n, 'constant')
         if isinstance(n, ast.Name):
             if n.id in s.fconsts and n.id not in s.declared: return s.fconsts[n.id]
@@ -159,6 +176,11 @@ class Tr:
             if isinstance(n.op, ast.BitOr): return f'(Py.lor {a} {b})'
             if isinstance(n.op, ast.BitXor): return f'(Py.lxor {a} {b})'
             s.fail(n, 'binop')
+        if isinstance(n, ast.Compare) and len(n.ops) == 2 and all(isinstance(o, (ast.Lt, ast.LtE)) for o in n.ops):
+            # a <= b <= c (b is a variable or constant here: evaluated once either way)
+            a, b, c = s.e(n.left), s.e(n.comparators[0]), s.e(n.comparators[1])
+            sym = {ast.Lt: '<', ast.LtE: '≤'}
+            return f'((decide ({a} {sym[type(n.ops[0])]} {b})) && (decide ({b} {sym[type(n.ops[1])]} {c})))'
         if isinstance(n, ast.Compare) and len(n.ops) == 1:
             a, b = s.e(n.left), s.e(n.comparators[0])
             op = {ast.Lt: '<', ast.LtE: '≤', ast.Gt: '>', ast.GtE: '≥', ast.Eq: '==', ast.NotEq: '!='}.get(type(n.ops[0]))
@@ -260,7 +282,7 @@ class Tr:
             f = n.func
             nm = f.attr if isinstance(f, ast.Attribute) else getattr(f, 'id', '')
             return nm in ('to_bytes', 'pack', 'bytes', 'encode_varint', 'h_to_b', 'b_to_h', '_op_push_data',
-                          'prepend_compact_size') or nm in LIST_RET
+                          'prepend_compact_size', 'digest', 'encode') or nm in LIST_RET or nm in SCH_BYTES
         if isinstance(n, ast.Subscript): return isinstance(n.slice, ast.Slice) and s.isbytes(n.value)
         return False
 
@@ -269,7 +291,7 @@ class Tr:
         if isinstance(n, (ast.Compare, ast.BoolOp)) or (isinstance(n, ast.UnaryOp) and isinstance(n.op, ast.Not)):
             return t
         if isinstance(n, ast.Constant) and isinstance(n.value, bool): return t
-        if isinstance(n, ast.Call) and isinstance(n.func, ast.Name) and n.func.id in ('isinstance', 'is_infinite'): return t
+        if isinstance(n, ast.Call) and isinstance(n.func, ast.Name) and n.func.id in ('isinstance', 'is_infinite', 'has_even_y', 'schnorr_verify'): return t
         if isinstance(n, ast.Name) and n.id in s.boolvars: return t
         if isinstance(n, ast.Attribute) and 'self_' + n.attr in s.boolvars: return t
         if s.isbytes(n): return f'(!({t}).isEmpty)'
@@ -284,6 +306,17 @@ class Tr:
                 return s.eff(f'Py.pt{f.id.upper()} {s.e(args[0])}')
             if f.id == 'is_infinite' and len(args) == 1 and s.ispoint(args[0]): return f'(Option.isNone {s.e(args[0])})'
             if f.id == 'pow' and len(args) == 3: return s.eff(f'Py.powMod {s.e(args[0])} {s.e(args[1])} {s.e(args[2])}')
+            if f.id in SCH_CALLS and 'p' in s.fconsts:
+                nm, sha = SCH_CALLS[f.id]
+                return s.eff(f'{nm} ' + ('sha256 ' if sha else '') + ' '.join(s.e(a) for a in args))
+            if f.id == 'bytes' and len(args) == 1 and isinstance(args[0], ast.GeneratorExp) and 'p' in s.fconsts:
+                g = args[0]
+                # bytes(x ^ y for (x, y) in zip(b0, b1))
+                if (len(g.generators) == 1 and isinstance(g.generators[0].iter, ast.Call) and getattr(g.generators[0].iter.func, 'id', '') == 'zip'
+                        and isinstance(g.elt, ast.BinOp) and isinstance(g.elt.op, ast.BitXor) and len(g.generators[0].iter.args) == 2):
+                    za, zb = g.generators[0].iter.args
+                    return f'(Py.xorBytes {s.e(za)} {s.e(zb)})'
+                s.fail(n, 'bytes(generator)')
             if f.id in POINT_RET and 'p' in s.fconsts: return s.eff(f'{POINT_RET[f.id]} ' + ' '.join(s.e(a) for a in args))
             if f.id == 'len':
                 if s.kind(args[0]) in ('ints', 'chars'): return f'((List.length {s.e(args[0])} : Nat) : Int)'
@@ -300,6 +333,12 @@ class Tr:
             if f.id in CALLS: return s.eff(f'{CALLS[f.id]} ' + ' '.join(s.e(a) for a in args))
             if f.id == 'isinstance': return 'true'     # argument types are fixed by the signature table
         if isinstance(f, ast.Attribute):
+            if (f.attr == 'digest' and not args and isinstance(f.value, ast.Call) and isinstance(f.value.func, ast.Attribute)
+                    and f.value.func.attr == 'sha256' and isinstance(f.value.func.value, ast.Name) and f.value.func.value.id == 'hashlib'
+                    and len(f.value.args) == 1 and 'sha256' in s.declared):
+                return f'(sha256 {s.e(f.value.args[0])})'
+            if f.attr == 'encode' and not args and isinstance(f.value, ast.Name) and f.value.id in s.bytesvars:
+                return f.value.id       # str.encode() of a str modelled by its UTF-8 bytes
             if (f.attr == 'join' and isinstance(f.value, ast.Constant) and f.value.value == b'' and len(args) == 1
                     and isinstance(args[0], ast.GeneratorExp) and len(args[0].generators) == 1
                     and isinstance(args[0].generators[0].iter, ast.Name) and args[0].generators[0].iter.id in s.tuple5
@@ -320,8 +359,10 @@ class Tr:
                 order = kw.get('byteorder', args[1] if len(args) > 1 else None)
                 if not isinstance(order, ast.Constant) or order.value not in ('little', 'big'): s.fail(n, 'to_bytes order')
                 return s.eff(f'Py.toBytes {s.e(f.value)} {s.e(args[0])} Py.Order.{order.value}')
-            if f.attr == 'from_bytes' and isinstance(args[1], ast.Constant) and args[1].value in ('little', 'big'):
-                return f'(Py.fromBytes {s.e(args[0])} Py.Order.{args[1].value})'
+            if f.attr == 'from_bytes':
+                order = kw.get('byteorder', args[1] if len(args) > 1 else None)
+                if not isinstance(order, ast.Constant) or order.value not in ('little', 'big'): s.fail(n, 'from_bytes order')
+                return f'(Py.fromBytes {s.e(args[0])} Py.Order.{order.value})'
             if f.attr == 'bit_length': return f'(Py.bitLength {s.e(f.value)})'
             if isinstance(f.value, ast.Name) and f.value.id == 'struct' and f.attr == 'pack' and len(args) == 2 \
                     and isinstance(args[0], ast.Constant):
@@ -343,6 +384,9 @@ class Tr:
     def stmt(s, st, ind):
         if isinstance(st, ast.Expr) and isinstance(st.value, ast.Constant): return []      # docstring
         if isinstance(st, ast.Pass): return []
+        if (isinstance(st, ast.Expr) and isinstance(st.value, ast.Call) and getattr(st.value.func, 'id', '') == 'debug_print_vars'
+                and 'p' in s.fconsts):
+            return []      # prints only when schnorr.DEBUG is set (checked to be False at generation time)
         if isinstance(st, ast.Return):
             t = s.e(st.value) if st.value else '()'
             if s.ret == POINT:
